@@ -1,4 +1,5 @@
 use vstd::prelude::*;
+use vstd::std_specs::ops::*;
 use std::marker::PhantomData;
 verus! {
 //@include prelude.rs
@@ -103,14 +104,33 @@ pub open spec fn supported(u: TimeUnit) -> bool {
         let tn = T::unit_spec().nanos();
         assert(un == 1 || un == 1_000 || un == 1_000_000 || un == 1_000_000_000);
         assert(tn == 1 || tn == 1_000 || tn == 1_000_000 || tn == 1_000_000_000);
-        // x == q * (x / q) + x % q and 0 <= x % q < q for the three unit ratios
         let x = this.0 as int;
+        let y = __ret.0 as int;
+        // x == q * (x / q) + x % q and 0 <= x % q < q for the three unit ratios (literal divisors: linear facts)
         vstd::arithmetic::div_mod::lemma_fundamental_div_mod(x, 1_000);
         vstd::arithmetic::div_mod::lemma_mod_bound(x, 1_000);
         vstd::arithmetic::div_mod::lemma_fundamental_div_mod(x, 1_000_000);
         vstd::arithmetic::div_mod::lemma_mod_bound(x, 1_000_000);
         vstd::arithmetic::div_mod::lemma_fundamental_div_mod(x, 1_000_000_000);
         vstd::arithmetic::div_mod::lemma_mod_bound(x, 1_000_000_000);
+        if this.0 != i64::MIN && un < tn {
+            // one case per (source, target) pair, each with literal factors only
+            if un == 1 && tn == 1_000 { assert(y == x / 1_000); assert(y * 1_000 <= x < (y + 1) * 1_000); }
+            if un == 1 && tn == 1_000_000 { assert(y == x / 1_000_000); assert(y * 1_000_000 <= x < (y + 1) * 1_000_000); }
+            if un == 1 && tn == 1_000_000_000 { assert(y == x / 1_000_000_000); assert(y * 1_000_000_000 <= x < (y + 1) * 1_000_000_000); }
+            if un == 1_000 && tn == 1_000_000 { assert(y == x / 1_000); assert(y * 1_000 <= x < (y + 1) * 1_000); assert(y * 1_000_000 <= x * 1_000 < (y + 1) * 1_000_000); }
+            if un == 1_000 && tn == 1_000_000_000 { assert(y == x / 1_000_000); assert(y * 1_000_000 <= x < (y + 1) * 1_000_000); assert(y * 1_000_000_000 <= x * 1_000 < (y + 1) * 1_000_000_000); }
+            if un == 1_000_000 && tn == 1_000_000_000 { assert(y == x / 1_000); assert(y * 1_000 <= x < (y + 1) * 1_000); assert(y * 1_000_000_000 <= x * 1_000_000 < (y + 1) * 1_000_000_000); }
+            assert(y * tn <= x * un < (y + 1) * tn);
+        }
+        if this.0 != i64::MIN && un == tn {
+            assert(y == x);
+            if tn == 1 { assert(y * 1 <= x * 1 < (y + 1) * 1); }
+            if tn == 1_000 { assert(y * 1_000 <= x * 1_000 < (y + 1) * 1_000); }
+            if tn == 1_000_000 { assert(y * 1_000_000 <= x * 1_000_000 < (y + 1) * 1_000_000); }
+            if tn == 1_000_000_000 { assert(y * 1_000_000_000 <= x * 1_000_000_000 < (y + 1) * 1_000_000_000); }
+            assert(y * tn <= x * un < (y + 1) * tn);
+        }
     }
 //@spec
     requires
@@ -133,12 +153,56 @@ pub open spec fn supported(u: TimeUnit) -> bool {
 // chrono::Duration is abstract (A-CHRONO): all tevec needs is its nanosecond count, None when it does not fit an i64
 #[verifier::external_body]
 pub struct Duration { _p: u8 }
+pub uninterp spec fn dur_of(n: int) -> Duration;
+pub broadcast axiom fn ax_dur_of(n: int) ensures (#[trigger] dur_of(n)).dns() == n;
 impl Duration {
-    pub uninterp spec fn nn(&self) -> Option<i64>;
+    pub uninterp spec fn dns(&self) -> int;        // exact length in nanoseconds (chrono's range is wider than i64 nanoseconds)
+    pub open spec fn nn(&self) -> Option<i64> { if i64::MIN <= self.dns() <= i64::MAX { Some(self.dns() as i64) } else { None } }
     #[verifier::external_body]
     pub fn num_nanoseconds(&self) -> (r: Option<i64>)
         ensures r == self.nn(),
     { unimplemented!() }
+    #[verifier::external_body]
+    pub const fn seconds(s: i64) -> (r: Duration)
+        ensures r.dns() == s * 1_000_000_000,
+    { unimplemented!() }
+    #[verifier::external_body]
+    pub const fn nanoseconds(n: i64) -> (r: Duration)
+        ensures r.dns() == n,
+    { unimplemented!() }
+    #[verifier::external_body]
+    pub const fn microseconds(n: i64) -> (r: Duration)
+        ensures r.dns() == n * 1_000,
+    { unimplemented!() }
+    #[verifier::external_body]
+    pub const fn milliseconds(n: i64) -> (r: Duration)
+        ensures r.dns() == n * 1_000_000,
+    { unimplemented!() }
+}
+// chrono's operators on durations (A-CHRONO): exact on the nanosecond count (overflow of chrono's own range: outside the model)
+impl core::ops::Add<Duration> for Duration { type Output = Duration; #[verifier::external_body] fn add(self, o: Duration) -> Duration { unimplemented!() } }
+impl AddSpecImpl<Duration> for Duration {
+    open spec fn obeys_add_spec() -> bool { true }
+    open spec fn add_req(self, o: Duration) -> bool { true }
+    open spec fn add_spec(self, o: Duration) -> Duration { dur_of(self.dns() + o.dns()) }
+}
+impl core::ops::Sub<Duration> for Duration { type Output = Duration; #[verifier::external_body] fn sub(self, o: Duration) -> Duration { unimplemented!() } }
+impl SubSpecImpl<Duration> for Duration {
+    open spec fn obeys_sub_spec() -> bool { true }
+    open spec fn sub_req(self, o: Duration) -> bool { true }
+    open spec fn sub_spec(self, o: Duration) -> Duration { dur_of(self.dns() - o.dns()) }
+}
+impl core::ops::Neg for Duration { type Output = Duration; #[verifier::external_body] fn neg(self) -> Duration { unimplemented!() } }
+impl NegSpecImpl for Duration {
+    open spec fn obeys_neg_spec() -> bool { true }
+    open spec fn neg_req(self) -> bool { true }
+    open spec fn neg_spec(self) -> Duration { dur_of(-self.dns()) }
+}
+impl core::ops::Mul<i32> for Duration { type Output = Duration; #[verifier::external_body] fn mul(self, k: i32) -> Duration { unimplemented!() } }
+impl MulSpecImpl<i32> for Duration {
+    open spec fn obeys_mul_spec() -> bool { true }
+    open spec fn mul_req(self, k: i32) -> bool { true }
+    open spec fn mul_spec(self, k: i32) -> Duration { dur_of(self.dns() * k) }
 }
 pub struct TimeDelta { pub months: i32, pub inner: Duration }
 pub struct Time(pub i64);
@@ -250,15 +314,15 @@ impl CrDateTime {
     pub uninterp spec fn ns(&self) -> int;
     #[verifier::external_body]
     pub fn from_timestamp(secs: i64, nsecs: u32) -> (r: Option<CrDateTime>)
-        ensures r matches Some(d) ==> d.ns() == secs * 1_000_000_000 + nsecs,
+        ensures r matches Some(d) ==> d.ns() == secs * 1_000_000_000 + nsecs, cr_range(secs * 1_000_000_000 + nsecs) ==> r.is_some(),
     { unimplemented!() }
     #[verifier::external_body]
     pub fn from_timestamp_millis(ms: i64) -> (r: Option<CrDateTime>)
-        ensures r matches Some(d) ==> d.ns() == ms * 1_000_000,
+        ensures r matches Some(d) ==> d.ns() == ms * 1_000_000, cr_range(ms * 1_000_000) ==> r.is_some(),
     { unimplemented!() }
     #[verifier::external_body]
     pub fn from_timestamp_micros(us: i64) -> (r: Option<CrDateTime>)
-        ensures r matches Some(d) ==> d.ns() == us * 1_000,
+        ensures r matches Some(d) ==> d.ns() == us * 1_000, cr_range(us * 1_000) ==> r.is_some(),
     { unimplemented!() }
     #[verifier::external_body]
     pub fn from_timestamp_nanos(n: i64) -> (r: CrDateTime)
@@ -301,24 +365,28 @@ impl<U: TimeUnitTrait> IntoDt<U> for i64 {
 //@sig pub fn try_from_s(dt: DateTime<Second>) -> (r: TResult<CrDateTime>)
 //@closure 1 mode=annotate params="" ret="(e: TError)"
 //@spec
-    ensures r matches Ok(d) ==> d.ns() == dt.0 * 1_000_000_000       // #C16 calendar_value_is_the_same_instant
+    ensures r matches Ok(d) ==> d.ns() == dt.0 * 1_000_000_000,      // #C16 calendar_value_is_the_same_instant
+        cr_range(dt.0 * 1_000_000_000) ==> r.is_ok(),                // #C16 in_range_converts
 //@end
 //@fn name=try_from crate=tea-time ctx="impl TryFrom<DateTime<Millisecond>> for CrDateTime<Utc>" as=try_from_ms props=C16 arith=C16
 //@sig pub fn try_from_ms(dt: DateTime<Millisecond>) -> (r: TResult<CrDateTime>)
 //@closure 1 mode=annotate params="" ret="(e: TError)"
 //@spec
-    ensures r matches Ok(d) ==> d.ns() == dt.0 * 1_000_000           // #C16 calendar_value_is_the_same_instant
+    ensures r matches Ok(d) ==> d.ns() == dt.0 * 1_000_000,          // #C16 calendar_value_is_the_same_instant
+        cr_range(dt.0 * 1_000_000) ==> r.is_ok(),                    // #C16 in_range_converts
 //@end
 //@fn name=try_from crate=tea-time ctx="impl TryFrom<DateTime<Microsecond>> for CrDateTime<Utc>" as=try_from_us props=C16 arith=C16
 //@sig pub fn try_from_us(dt: DateTime<Microsecond>) -> (r: TResult<CrDateTime>)
 //@closure 1 mode=annotate params="" ret="(e: TError)"
 //@spec
-    ensures r matches Ok(d) ==> d.ns() == dt.0 * 1_000               // #C16 calendar_value_is_the_same_instant
+    ensures r matches Ok(d) ==> d.ns() == dt.0 * 1_000,              // #C16 calendar_value_is_the_same_instant
+        cr_range(dt.0 * 1_000) ==> r.is_ok(),                        // #C16 in_range_converts
 //@end
 //@fn name=try_from crate=tea-time ctx="impl TryFrom<DateTime<Nanosecond>> for CrDateTime<Utc>" as=try_from_ns props=C16 arith=C16
 //@sig pub fn try_from_ns(dt: DateTime<Nanosecond>) -> (r: TResult<CrDateTime>)
 //@spec
-    ensures r matches Ok(d) ==> d.ns() == dt.0                        // #C16 calendar_value_is_the_same_instant
+    ensures r matches Ok(d) ==> d.ns() == dt.0,                       // #C16 calendar_value_is_the_same_instant
+        r.is_ok(),                                                    // #C16 in_range_converts
 //@end
 
 //@fn name=from crate=tea-time ctx="impl From<CrDateTime<Utc>> for DateTime<Second>" as=from_cr_s props=C16 arith=C16
@@ -346,6 +414,357 @@ impl<U: TimeUnitTrait> IntoDt<U> for i64 {
     requires i64::MIN <= dt.ns() <= i64::MAX,       // within the representable range of the unit (otherwise a documented panic)
     ensures r.0 == dt.ns()                                                 // #C16 calendar_to_unit_truncates_toward_the_past
 //@end
+
+
+// ---- calendar arithmetic of chrono (A-CHRONO): instants are their nanosecond count; the calendar decomposition
+// (month index = year*12 + month0, day of month, nanoseconds since midnight) and the month shift are chrono's, abstract here.
+pub uninterp spec fn cr_at(ns: int) -> CrDateTime;
+pub broadcast axiom fn ax_cr_at(n: int) ensures (#[trigger] cr_at(n)).ns() == n;
+pub uninterp spec fn cal_midx(ns: int) -> int;
+pub uninterp spec fn cal_day(ns: int) -> int;
+pub uninterp spec fn cal_tod(ns: int) -> int;
+pub uninterp spec fn cal_make(midx: int, day: int, tod: int) -> int;      // the instant with these calendar fields
+pub uninterp spec fn cal_shift(ns: int, months: int) -> int;              // chrono: checked_add_months / checked_sub_months (end-of-month clamping)
+pub uninterp spec fn cr_range(ns: int) -> bool;                           // inside chrono's representable range
+pub broadcast axiom fn ax_cal_fields(m: int, d: int, t: int)
+    requires 1 <= d <= 28, 0 <= t < 86_400_000_000_000,
+    ensures cal_midx(#[trigger] cal_make(m, d, t)) == m, cal_day(cal_make(m, d, t)) == d, cal_tod(cal_make(m, d, t)) == t;
+pub broadcast axiom fn ax_cal_make(ns: int)
+    ensures #[trigger] cal_make(cal_midx(ns), cal_day(ns), cal_tod(ns)) == ns;
+pub broadcast axiom fn ax_cal_bounds(ns: int)
+    ensures 0 <= #[trigger] cal_tod(ns) < 86_400_000_000_000;
+pub broadcast axiom fn ax_cal_day(ns: int)
+    ensures 1 <= #[trigger] cal_day(ns) <= 31;
+// a month shift keeps the day of month (no clamping up to the 28th) and the time of day; shifting by 0 months is the identity
+pub broadcast axiom fn ax_cal_shift(m: int, d: int, t: int, j: int)
+    requires 1 <= d <= 28,
+    ensures #[trigger] cal_shift(cal_make(m, d, t), j) == cal_make(m + j, d, t);
+pub broadcast axiom fn ax_cal_shift0(ns: int) ensures #[trigger] cal_shift(ns, 0) == ns;
+pub broadcast group a_chrono { ax_cr_at, ax_dur_of, ax_cal_fields, ax_cal_make, ax_cal_bounds, ax_cal_day, ax_cal_shift, ax_cal_shift0 }
+
+pub struct Months { pub k: u32 }
+impl Months {
+    pub const fn new(num: u32) -> (r: Months) ensures r.k == num { Months { k: num } }
+}
+pub struct NaiveTime { pub tod: int }
+#[verifier::external_body]
+pub fn naive_time_min() -> (r: NaiveTime) ensures r.tod == 0 { unimplemented!() }       // NaiveTime::MIN (R12)
+pub struct LocalResultCr { pub v: CrDateTime }
+impl LocalResultCr {
+    pub fn unwrap(self) -> (r: CrDateTime) ensures r == self.v { self.v }            // a UTC date-time is never ambiguous: always Single
+}
+#[derive(Debug)]
+pub struct RoundingError;
+impl CrDateTime {
+    #[verifier::external_body]
+    pub fn year(&self) -> (r: i32)
+        ensures -262_143 <= r <= 262_142, r as int == cal_midx(self.ns()) / 12,
+    { unimplemented!() }
+    #[verifier::external_body]
+    pub fn month0(&self) -> (r: u32)
+        ensures r < 12, r as int == cal_midx(self.ns()) % 12,
+    { unimplemented!() }
+    #[verifier::external_body]
+    pub fn with_day(&self, day: u32) -> (r: Option<CrDateTime>)
+        ensures 1 <= day <= 28 ==> r.is_some() && r.unwrap().ns() == cal_make(cal_midx(self.ns()), day as int, cal_tod(self.ns())),
+    { unimplemented!() }
+    #[verifier::external_body]
+    pub fn with_time(&self, t: NaiveTime) -> (r: LocalResultCr)
+        ensures r.v.ns() == cal_make(cal_midx(self.ns()), cal_day(self.ns()), t.tod),
+    { unimplemented!() }
+    // chrono::DurationRound::duration_trunc (round.rs): floor to a multiple of the span, on the i64 nanosecond timestamp
+    #[verifier::external_body]
+    pub fn duration_trunc(self, d: Duration) -> (r: Result<CrDateTime, RoundingError>)
+        ensures
+            (d.nn() matches Some(n) && n > 0 && i64::MIN <= self.ns() <= i64::MAX) ==> r.is_ok(),
+            r matches Ok(c) ==> d.nn().is_some() && d.dns() > 0 && c.ns() == d.dns() * (self.ns() / d.dns()),
+    { unimplemented!() }
+}
+impl core::ops::Add<Months> for CrDateTime { type Output = CrDateTime; #[verifier::external_body] fn add(self, m: Months) -> CrDateTime { unimplemented!() } }
+impl AddSpecImpl<Months> for CrDateTime {
+    open spec fn obeys_add_spec() -> bool { true }
+    open spec fn add_req(self, m: Months) -> bool { true }
+    open spec fn add_spec(self, m: Months) -> CrDateTime { cr_at(cal_shift(self.ns(), m.k as int)) }
+}
+impl core::ops::Sub<Months> for CrDateTime { type Output = CrDateTime; #[verifier::external_body] fn sub(self, m: Months) -> CrDateTime { unimplemented!() } }
+impl SubSpecImpl<Months> for CrDateTime {
+    open spec fn obeys_sub_spec() -> bool { true }
+    open spec fn sub_req(self, m: Months) -> bool { true }
+    open spec fn sub_spec(self, m: Months) -> CrDateTime { cr_at(cal_shift(self.ns(), -(m.k as int))) }
+}
+impl core::ops::Add<Duration> for CrDateTime { type Output = CrDateTime; #[verifier::external_body] fn add(self, d: Duration) -> CrDateTime { unimplemented!() } }
+impl AddSpecImpl<Duration> for CrDateTime {
+    open spec fn obeys_add_spec() -> bool { true }
+    open spec fn add_req(self, d: Duration) -> bool { true }
+    open spec fn add_spec(self, d: Duration) -> CrDateTime { cr_at(self.ns() + d.dns()) }
+}
+impl core::ops::Sub<Duration> for CrDateTime { type Output = CrDateTime; #[verifier::external_body] fn sub(self, d: Duration) -> CrDateTime { unimplemented!() } }
+impl SubSpecImpl<Duration> for CrDateTime {
+    open spec fn obeys_sub_spec() -> bool { true }
+    open spec fn sub_req(self, d: Duration) -> bool { true }
+    open spec fn sub_spec(self, d: Duration) -> CrDateTime { cr_at(self.ns() - d.dns()) }
+}
+impl core::ops::Sub<CrDateTime> for CrDateTime { type Output = Duration; #[verifier::external_body] fn sub(self, o: CrDateTime) -> Duration { unimplemented!() } }
+impl SubSpecImpl<CrDateTime> for CrDateTime {
+    open spec fn obeys_sub_spec() -> bool { true }
+    open spec fn sub_req(self, o: CrDateTime) -> bool { true }
+    open spec fn sub_spec(self, o: CrDateTime) -> Duration { dur_of(self.ns() - o.ns()) }
+}
+pub assume_specification[ i64::abs ](x: i64) -> (r: i64)
+    requires x != i64::MIN,
+    ensures r as int == (if x < 0 { -(x as int) } else { x as int });
+pub assume_specification[ i32::abs ](x: i32) -> (r: i32)
+    requires x != i32::MIN,
+    ensures r as int == (if x < 0 { -(x as int) } else { x as int });
+pub assume_specification[ i32::rem_euclid ](x: i32, d: i32) -> (r: i32)
+    requires d != 0, !(x == i32::MIN && d == -1),
+    ensures d > 0 ==> r as int == (x as int) % (d as int);       // Verus' int % is Euclidean
+
+// the four resolutions, generically: conversions to / from the calendar type are the extracted, verified functions above
+pub trait UnitConv: TimeUnitTrait {
+    fn try_into_cr(d: &DateTime<Self>) -> (r: TResult<CrDateTime>)
+        ensures
+            r matches Ok(c) ==> c.ns() == d.0 * Self::unit_spec().nanos(),
+            cr_range(d.0 * Self::unit_spec().nanos()) ==> r.is_ok(),
+            supported(Self::unit_spec());
+    fn from_cr(c: CrDateTime) -> (r: DateTime<Self>)
+        requires Self::unit_spec() == TimeUnit::Nanosecond ==> i64::MIN <= c.ns() <= i64::MAX,
+        ensures r.0 * Self::unit_spec().nanos() <= c.ns() < (r.0 + 1) * Self::unit_spec().nanos();
+}
+impl UnitConv for Second {
+    fn try_into_cr(d: &DateTime<Second>) -> TResult<CrDateTime> { try_from_s(DateTime(d.0, PhantomData)) }
+    fn from_cr(c: CrDateTime) -> DateTime<Second> { from_cr_s(c) }
+}
+impl UnitConv for Millisecond {
+    fn try_into_cr(d: &DateTime<Millisecond>) -> TResult<CrDateTime> { try_from_ms(DateTime(d.0, PhantomData)) }
+    fn from_cr(c: CrDateTime) -> DateTime<Millisecond> { from_cr_ms(c) }
+}
+impl UnitConv for Microsecond {
+    fn try_into_cr(d: &DateTime<Microsecond>) -> TResult<CrDateTime> { try_from_us(DateTime(d.0, PhantomData)) }
+    fn from_cr(c: CrDateTime) -> DateTime<Microsecond> { from_cr_us(c) }
+}
+impl UnitConv for Nanosecond {
+    fn try_into_cr(d: &DateTime<Nanosecond>) -> TResult<CrDateTime> { try_from_ns(DateTime(d.0, PhantomData)) }
+    fn from_cr(c: CrDateTime) -> DateTime<Nanosecond> { from_cr_ns(c) }
+}
+// `x.into()` for x: chrono date-time is From<CrDateTime<Utc>> for DateTime<U> (R12: `.into()` -> `.cr_into()`)
+impl CrDateTime {
+    pub fn cr_into<U: UnitConv>(self) -> (r: DateTime<U>)
+        requires U::unit_spec() == TimeUnit::Nanosecond ==> i64::MIN <= self.ns() <= i64::MAX,
+        ensures r.0 * U::unit_spec().nanos() <= self.ns() < (r.0 + 1) * U::unit_spec().nanos(),
+    { U::from_cr(self) }
+}
+pub open spec fn unit_floor<U: TimeUnitTrait>(r: DateTime<U>, ns: int) -> bool {
+    r.0 * U::unit_spec().nanos() <= ns < (r.0 + 1) * U::unit_spec().nanos()
+}
+pub open spec fn dt_ns<U: TimeUnitTrait>(d: DateTime<U>) -> int { d.0 * U::unit_spec().nanos() }
+// within range for the operators: the operand converts, and a nanosecond-resolution result fits (documented panics otherwise)
+pub open spec fn fits<U: TimeUnitTrait>(ns: int) -> bool { U::unit_spec() == TimeUnit::Nanosecond ==> i64::MIN <= ns <= i64::MAX }
+
+impl<U: UnitConv> DateTime<U> {
+//@fn name=as_cr crate=tea-time ctx="impl<U: TimeUnitTrait> DateTime<U>" props=C16,C17
+//@sig pub fn as_cr(&self) -> (r: Option<CrDateTime>)
+//@replace (*self).try_into() => U::try_into_cr(self)
+//@spec
+    ensures
+        self.0 == i64::MIN ==> r.is_none(),                              // #C16 nat_has_no_calendar_value
+        r matches Some(c) ==> c.ns() == dt_ns(*self),                    // #C16,C17 calendar_value_is_the_same_instant
+        (self.0 != i64::MIN && cr_range(dt_ns(*self))) ==> r.is_some(),  // #C16 in_range_converts
+//@end
+
+//@fn name=duration_trunc crate=tea-time ctx="impl<U: TimeUnitTrait> DateTime<U>" props=C16,C17 arith=C17
+//@sig pub fn duration_trunc(self, duration: TimeDelta) -> (r: Self)
+//@replace NaiveTime::MIN => naive_time_min()
+//@replace .into() => .cr_into()
+//@spec
+    requires
+        // the property's domain: a convertible instant and either a positive month-free span or a whole number of months
+        self.0 != i64::MIN ==> {
+            &&& cr_range(dt_ns(self))
+            &&& (duration.months < 0 ==> panic_allowed())                                  // negative months / NaT duration: documented `unimplemented!`
+            &&& (duration.months == 0 ==> duration.inner.nn().is_some() && duration.inner.dns() > 0 && i64::MIN <= dt_ns(self) <= i64::MAX)
+            &&& (duration.months > 0 ==> duration.inner.dns() == 0)
+            // a nanosecond-resolution result must be representable (otherwise: documented panic of the conversion)
+            &&& ((U::unit_spec() == TimeUnit::Nanosecond && duration.months == 0) ==> i64::MIN <= duration.inner.dns() * (dt_ns(self) / duration.inner.dns()))
+            &&& ((U::unit_spec() == TimeUnit::Nanosecond && duration.months > 0) ==>
+                    i64::MIN <= cal_make(duration.months * (cal_midx(dt_ns(self)) / (duration.months as int)), 1, 0) <= i64::MAX)
+        },
+    ensures
+        self.0 == i64::MIN ==> r.0 == i64::MIN,                                              // #C16 nat_preserved
+        // month-free: the greatest multiple of the duration not after the instant (then expressed in the unit)
+        (self.0 != i64::MIN && duration.months == 0 && duration.inner.nn().is_some() && duration.inner.dns() > 0) ==>
+            unit_floor(r, duration.inner.dns() * (dt_ns(self) / duration.inner.dns())),      // #C17 greatest_multiple_not_after
+        // whole months: the first instant of the calendar block of `months` months (aligned to January) containing the instant
+        (self.0 != i64::MIN && duration.months > 0 && duration.inner.dns() == 0) ==>
+            unit_floor(r, cal_make(duration.months * (cal_midx(dt_ns(self)) / (duration.months as int)), 1, 0)),    // #C17 first_instant_of_the_month_block
+//@at body first
+    broadcast use a_chrono;
+    proof {
+        let x = dt_ns(self);
+        if duration.months > 0 {
+            vstd::arithmetic::div_mod::lemma_fundamental_div_mod(cal_midx(x), duration.months as int);
+            vstd::arithmetic::div_mod::lemma_mod_bound(cal_midx(x), duration.months as int);
+            vstd::arithmetic::div_mod::lemma_fundamental_div_mod(cal_midx(x), 12);
+        }
+        if duration.months == 0 && duration.inner.dns() > 0 {
+            vstd::arithmetic::div_mod::lemma_fundamental_div_mod(x, duration.inner.dns());
+            vstd::arithmetic::div_mod::lemma_mod_bound(x, duration.inner.dns());
+        }
+    }
+//@end
+}
+
+
+impl TimeDelta {
+//@fn name=nat crate=tea-time ctx="impl TimeDelta" props=C16
+//@sig pub const fn nat() -> (r: Self)
+//@spec
+    ensures r.months == i32::MIN
+//@end
+}
+
+// what `date-time (+|-) delta` must be, from the property: NaT absorbs; otherwise the calendar shift by the months (chrono's),
+// then the exact shift by the month-free part, expressed in the unit (truncated toward the past when the unit is coarser)
+pub open spec fn dt_shift_ok<U: TimeUnitTrait>(t: DateTime<U>, d: TimeDelta, sign: int, r: DateTime<U>) -> bool {
+    &&& (t.0 == i64::MIN || d.months == i32::MIN) ==> r.0 == i64::MIN
+    &&& (t.0 != i64::MIN && d.months != i32::MIN) ==> unit_floor(r, cal_shift(dt_ns(t), sign * d.months) + sign * d.inner.dns())
+}
+
+//@fn name=add crate=tea-time ctx="impl<U: TimeUnitTrait> Add<TimeDelta> for DateTime<U>" as=dt_add props=C16,C17 arith=C17
+//@sig pub fn dt_add<U: UnitConv>(this: DateTime<U>, rhs: TimeDelta) -> (r: DateTime<U>)
+//@replace .into() => .cr_into()
+//@replace DateTime::nat() => DateTime::<U>::nat()
+//@spec
+    requires
+        (this.0 != i64::MIN && rhs.months != i32::MIN) ==> cr_range(dt_ns(this)) && fits::<U>(cal_shift(dt_ns(this), rhs.months as int) + rhs.inner.dns()),
+    ensures dt_shift_ok(this, rhs, 1, r),            // #C16,C17 datetime_plus_duration
+//@at body first
+    broadcast use a_chrono;
+//@end
+
+//@fn name=sub crate=tea-time ctx="impl<U: TimeUnitTrait> Sub<TimeDelta> for DateTime<U>" as=dt_sub props=C16,C17 arith=C17
+//@sig pub fn dt_sub<U: UnitConv>(this: DateTime<U>, rhs: TimeDelta) -> (r: DateTime<U>)
+//@replace .into() => .cr_into()
+//@replace DateTime::nat() => DateTime::<U>::nat()
+//@spec
+    requires
+        (this.0 != i64::MIN && rhs.months != i32::MIN) ==> cr_range(dt_ns(this)) && fits::<U>(cal_shift(dt_ns(this), -(rhs.months as int)) - rhs.inner.dns()),
+    ensures dt_shift_ok(this, rhs, -1, r),           // #C16,C17 datetime_minus_duration
+//@at body first
+    broadcast use a_chrono;
+//@end
+
+//@fn name=sub crate=tea-time ctx="impl<U: TimeUnitTrait> Sub<DateTime<U>> for DateTime<U>" as=dt_diff props=C16,C17
+//@sig pub fn dt_diff<U: UnitConv>(this: DateTime<U>, rhs: DateTime<U>) -> (r: TimeDelta)
+//@spec
+    requires (this.0 != i64::MIN && rhs.0 != i64::MIN) ==> cr_range(dt_ns(this)) && cr_range(dt_ns(rhs)),
+    ensures
+        (this.0 == i64::MIN || rhs.0 == i64::MIN) ==> r.months == i32::MIN,                             // #C16 nat_absorbs
+        (this.0 != i64::MIN && rhs.0 != i64::MIN) ==> r.months == 0 && r.inner.dns() == dt_ns(this) - dt_ns(rhs),    // #C17 difference_is_exact
+//@at body first
+    broadcast use a_chrono;
+//@end
+
+// inverse laws, over the contracts only.  A month-free duration that is a whole number of units shifts exactly, so adding and
+// subtracting it returns the original instant, and (a - b) + b == a.
+proof fn lemma_dt_shift_inverse<U: TimeUnitTrait>(t: DateTime<U>, d: TimeDelta, a: DateTime<U>, b: DateTime<U>, k: int)       // #C17
+    requires
+        supported(U::unit_spec()), t.0 != i64::MIN, d.months == 0, d.inner.dns() == k * U::unit_spec().nanos(),
+        dt_shift_ok(t, d, 1, a), a.0 != i64::MIN, dt_shift_ok(a, d, -1, b),
+    ensures a.0 == t.0 + k, b.0 == t.0,
+{
+    broadcast use a_chrono;
+    let q = U::unit_spec().nanos();
+    assert(q == 1 || q == 1_000 || q == 1_000_000 || q == 1_000_000_000);
+    lemma_unit_exact(a.0 as int, t.0 + k, q);
+    assert((t.0 + k) * q == t.0 * q + k * q) by(nonlinear_arith);
+    lemma_unit_exact(b.0 as int, t.0 as int, q);
+    assert(a.0 * q - k * q == t.0 * q) by(nonlinear_arith) requires a.0 == t.0 + k;
+}
+proof fn lemma_unit_exact(y: int, x: int, q: int)
+    requires q >= 1,
+    ensures (y * q <= x * q < (y + 1) * q) ==> y == x,
+{
+    if y * q <= x * q < (y + 1) * q {
+        assert(y == x) by(nonlinear_arith) requires q >= 1, y * q <= x * q, x * q < (y + 1) * q;
+    }
+}
+proof fn lemma_dt_diff_then_add<U: TimeUnitTrait>(a: DateTime<U>, b: DateTime<U>, d: TimeDelta, r: DateTime<U>)       // #C17
+    requires
+        supported(U::unit_spec()), a.0 != i64::MIN, b.0 != i64::MIN, d.months == 0, d.inner.dns() == dt_ns(a) - dt_ns(b),
+        dt_shift_ok(b, d, 1, r),
+    ensures r.0 == a.0,
+{
+    broadcast use a_chrono;
+    let q = U::unit_spec().nanos();
+    assert(q == 1 || q == 1_000 || q == 1_000_000 || q == 1_000_000_000);
+    lemma_unit_exact(r.0 as int, a.0 as int, q);
+}
+
+// ---- the duration group (C17): NaT absorbs, otherwise componentwise
+// `a & b` on bools (both operands evaluated; Verus has no non-short-circuit `&`): R12 `a & b` -> band(a, b)
+pub fn band(a: bool, b: bool) -> (r: bool) ensures r == (a && b) { a && b }
+pub open spec fn td_is(r: TimeDelta, months: int, dns: int) -> bool { r.months == months && r.inner.dns() == dns }
+
+//@fn name=neg crate=tea-time ctx="impl Neg for TimeDelta" as=td_neg props=C16,C17 arith=C17
+//@sig pub fn td_neg(this: TimeDelta) -> (r: TimeDelta)
+//@replace Self { => TimeDelta {
+//@spec
+    ensures
+        this.months == i32::MIN ==> r.months == i32::MIN,                              // #C16 nat_absorbs
+        this.months != i32::MIN ==> td_is(r, -this.months, -this.inner.dns()),         // #C17 negation_componentwise
+//@at body first
+    broadcast use a_chrono;
+//@end
+
+//@fn name=add crate=tea-time ctx="impl Add for TimeDelta" as=td_add props=C16,C17 arith=C17
+//@sig pub fn td_add(this: TimeDelta, rhs: TimeDelta) -> (r: TimeDelta)
+//@replace Self { => TimeDelta {
+//@replace this.is_not_nat() & rhs.is_not_nat() => band(this.is_not_nat(), rhs.is_not_nat())
+//@spec
+    requires (this.months != i32::MIN && rhs.months != i32::MIN) ==> i32::MIN < this.months + rhs.months <= i32::MAX,        // within range
+    ensures
+        (this.months == i32::MIN || rhs.months == i32::MIN) ==> r.months == i32::MIN,                                         // #C16 nat_absorbs
+        (this.months != i32::MIN && rhs.months != i32::MIN) ==> td_is(r, this.months + rhs.months, this.inner.dns() + rhs.inner.dns()),   // #C17 addition_componentwise
+//@at body first
+    broadcast use a_chrono;
+//@end
+
+//@fn name=sub crate=tea-time ctx="impl Sub for TimeDelta" as=td_sub props=C16,C17 arith=C17
+//@sig pub fn td_sub(this: TimeDelta, rhs: TimeDelta) -> (r: TimeDelta)
+//@replace Self { => TimeDelta {
+//@replace this.is_not_nat() & rhs.is_not_nat() => band(this.is_not_nat(), rhs.is_not_nat())
+//@spec
+    requires (this.months != i32::MIN && rhs.months != i32::MIN) ==> i32::MIN < this.months - rhs.months <= i32::MAX,
+    ensures
+        (this.months == i32::MIN || rhs.months == i32::MIN) ==> r.months == i32::MIN,                                         // #C16 nat_absorbs
+        (this.months != i32::MIN && rhs.months != i32::MIN) ==> td_is(r, this.months - rhs.months, this.inner.dns() - rhs.inner.dns()),   // #C17 subtraction_componentwise
+//@at body first
+    broadcast use a_chrono;
+//@end
+
+//@fn name=mul crate=tea-time ctx="impl Mul<i32> for TimeDelta" as=td_mul props=C16,C17 arith=C17
+//@sig pub fn td_mul(this: TimeDelta, rhs: i32) -> (r: TimeDelta)
+//@replace Self { => TimeDelta {
+//@spec
+    requires this.months != i32::MIN ==> i32::MIN < this.months * rhs <= i32::MAX,
+    ensures
+        this.months == i32::MIN ==> r.months == i32::MIN,                                              // #C16 nat_absorbs
+        this.months != i32::MIN ==> td_is(r, this.months * rhs, this.inner.dns() * rhs),               // #C17 scaling_componentwise
+//@at body first
+    broadcast use a_chrono;
+//@end
+
+// group laws and distributivity follow from the componentwise contracts (integers form a ring)
+proof fn lemma_td_group(am: int, an: int, bm: int, bn: int, k: int)       // #C17
+    ensures
+        (am + bm) - bm == am && (an + bn) - bn == an,                      // (a + b) - b == a
+        am + (-am) == 0 && an + (-an) == 0,                                // a + (-a) == 0
+        (am + bm) * k == am * k + bm * k && (an + bn) * k == an * k + bn * k,   // (a + b) * k == a*k + b*k
+{
+    assert((am + bm) * k == am * k + bm * k) by(nonlinear_arith);
+    assert((an + bn) * k == an * k + bn * k) by(nonlinear_arith);
+}
 
 // to the calendar type and back is the identity (over the two contracts)
 proof fn lemma_calendar_round_trip(x: int, q: int, n: int, y: int)       // #C16 calendar_round_trip
